@@ -225,7 +225,7 @@ fn oracle(case: &Case, obs: &Result<Vec<StepObs>, String>) -> String {
                 }
                 Seen::PollEnter { conn } => {
                     if let Some((c, t, d, changed)) = backoff { if c == *conn {
-                        if now != t + d && !cmd_in_step {
+                        if d != u64::MAX && now != t + d && !cmd_in_step {
                             if changed { stale.get_or_insert(format!("step {k}: connection {c} polled again {} s after the error, the configuration held says {d} s", now - t)); }
                             else { return format!("fail mqtt-conn:backoff step {k}: connection {c} polled again {} s after the error, connect_retry_secs is {d}", now - t); }
                         }
@@ -236,7 +236,8 @@ fn oracle(case: &Case, obs: &Result<Vec<StepObs>, String>) -> String {
                     if closed.contains(conn) { return format!("fail mqtt-conn:event-loop-after-disconnect step {k}: connection {conn} still polls"); }
                     if backoff.is_some() { return format!("fail mqtt-conn:backoff step {k}: connection {conn} polled during its back-off"); }
                     if matches!(ev, BrokerEvent::Refuse | BrokerEvent::Drop) {
-                        backoff = Some((*conn, now, held.connect_retry_secs, reconfs > 0));
+                        // a Reconfigure handled within the same step may come before or after the error: no expectation then
+                        backoff = Some((*conn, now, if cmd_in_step { u64::MAX } else { held.connect_retry_secs }, reconfs > 0));
                     }
                 }
                 Seen::Publish { conn, topic, payload, qos, retain, outcome } => {
